@@ -1,6 +1,6 @@
 import Goat.Model.CF
 import Goat.Driver.Opt
-/-! line protocol: `cf <opt|noopt> <stmt tokens…> | a<n>=<instrs,…> … c<n>=<instrs,…> …`
+/-! line protocol: `cf <opt|noopt|optleaves> <stmt tokens…> | a<n>=<instrs,…> … c<n>=<instrs,…> …`
     statement tokens (prefix): `act n`, `seq`, `ite c`, `ift c`, `loop c p`, `forever p`, `brk`, `cont`, `swc c` (clause, then the rest of the switch), `swd` (default), `ret n` (return after leaf n), `rng r kv it` (range over the item leaf `it`, slots as in the real code);
     answer: the assembled function body `rw 0 0 (compile L s)` (then the peephole passes when `opt`). -/
 namespace Goat.Driver
@@ -64,8 +64,15 @@ def cfCmd (args : List String) : String :=
       let L : Leaves :=
         { act := fun n => (tbl.lookup s!"a{n}").getD [],
           cnd := fun c => (tbl.lookup s!"c{c}").getD [] }
-      let code := rw 0 0 (compile L s)
+      -- `optleaves`: the object of C02.opt_transparent - the program assembled from the peephole-optimized
+      -- leaves, nothing else optimized (the leaf table then holds the UNoptimized leaf codes)
+      let code := if mode == "optleaves" then rw 0 0 (compile (optLeaves L) s) else rw 0 0 (compile L s)
       let code := if mode == "opt" then optimize code else code
+      -- the enclosing blocks' passes find nothing left to fuse in such code (C02.opt_stable) except a
+      -- placeholder rewritten to JUMP 0 afterwards, which the last pass turns into PASS (rule sound_jump0)
+      let code := if mode == "optleaves" then
+          code.map fun i => if i.op == "JUMP" && i.a == 0 then { i with op := "PASS" } else i
+        else code
       " ".intercalate (code.map fun i => s!"{i.op}:{i.a}:{i.b}:{i.c}")
     | _, _ => "bad-op"
   | _ => "bad-op"
